@@ -248,7 +248,8 @@ class TrG(Tr):
                 p = self.coerce(p, tp, ('List', 'Val'), e)
             else:
                 p = '([] : List Val)'
-            return self.bind(ind, f'E.execute db {q} {p}', native=True), ('List', ('List', 'Val'))
+            eng = 'E.connExecute' if ast.unparse(e.func.value) == 'self.conn' else 'E.execute'
+            return self.bind(ind, f'{eng} db {q} {p}', native=True), ('List', ('List', 'Val'))
         if isinstance(f, ast.Name):
             name, args = f.id, e.args
             if name == 'len' and len(args) == 1 and not e.keywords:
@@ -342,6 +343,12 @@ class TrG(Tr):
         # a bare `return` (of None) at the end of a function that returns nothing
         if isinstance(s, ast.Return) and s.value is None and ctx[0] == 'fn' and ctx[1] == 'Unit':
             self.finish_pure(ind, '()')
+            return
+        if isinstance(s, ast.Return) and s.value is not None and ctx[0] == 'fn' and same(ctx[1], ('List', 'Str')):
+            c, t = self.expr(s.value, env, ind)
+            if same(t, ('List', 'Val')):
+                c, t = self.bind(ind, f'E.strs {c}', native=True), ('List', 'Str')
+            self.finish_pure(ind, self.coerce(c, t, ctx[1], s))
             return
         plan = ctx[0] == 'fn' and ctx[1] == 'Plan' or (ctx[0] == 'loop' and 'calls_' in env)
         if isinstance(s, ast.Return) and s.value is None and ctx[0] == 'fn' and ctx[1] == 'Plan':
@@ -882,7 +889,17 @@ def _generate():
             return text + '\n\n' + wrap + f'\n\n/-- the default of `tablename` in `{name}` -/\ndef {name}_default_tablename : Py.Str := {lean_str(dflt)}'
         return build
 
+    def table_names_unit():
+        f = fn('pdb2sql_base.py', 'pdb2sql_base._get_table_names')
+        if params_of(f) != (['self'], None):
+            raise Refuse('pdb2sql_base._get_table_names', 'parameters changed')
+        text, tr = build_fn(f, 'pdb2sql_base._get_table_names', '_get_table_names_body', [], ('List', 'Str'),
+                            '`pdb2sql_base._get_table_names`: the catalogue query (its text is what is translated; `E.connExecute` says what it means) and the names')
+        return text + ('\n\n/-- `_get_table_names` -/\ndef _get_table_names (db : Db) : Except Err (List Py.Str) :=\n'
+                       '  _get_table_names_body (fun _ _ _ => .error .fuel) db')
+
     do_unit('get_runtime', lambda: RUNTIME.strip('\n'))
+    do_unit('get_get_table_names', table_names_unit)
     do_unit('get_get', get_unit)
     do_unit('get_update', update_unit)
     do_unit('get_update_column', update_column_unit)
@@ -961,6 +978,24 @@ def execute (db : Db) (text : Py.Str) (params : List Val) : Except Err (List (Li
     | .error e => .error e
     | .ok rows => .ok [[Val.int (if rows.isEmpty then 0 else 1)]]
   else MicroSql.query db text params
+
+/-- the one query over the catalogue the library emits (`_get_table_names`) -/
+def masterText : Py.Str := (['S', 'E', 'L', 'E', 'C', 'T', ' ', 'n', 'a', 'm', 'e', ' ', 'f', 'r', 'o', 'm', ' ', 's', 'q', 'l', 'i', 't', 'e', '_', 'm', 'a', 's', 't', 'e', 'r', ' ', 'W', 'H', 'E', 'R', 'E', ' ', 't', 'y', 'p', 'e', '=', '\'', 't', 'a', 'b', 'l', 'e', '\'', ';'] : Py.Str)
+
+/-- `self.conn.execute(text, params)`: the SQLite contract for the catalogue — `SELECT name from sqlite_master WHERE type='table';`
+    (exactly this text) answers the names of the tables in the order in which they were created, one row each; any other text
+    that mentions `sqlite_master` (an ORDER BY, other columns, ...) is given no meaning (`unmodelled`); everything else is `execute` -/
+def connExecute (db : Db) (text : Py.Str) (params : List Val) : Except Err (List (List Val)) :=
+  if text = masterText then
+    (if params.isEmpty then .ok (db.tabs.map (fun t => [Val.text t.name])) else .error .programming)
+  else if Py.strIn "sqlite_master".toList text then .error (.unmodelled "a query over sqlite_master other than the table-name query")
+  else execute db text params
+
+/-- a list of values used as a list of str (`return [n[0] for n in names]` of table names) -/
+def strs (l : List Val) : Except Err (List Py.Str) :=
+  l.mapM (fun v => match v with
+    | .text s => .ok s
+    | _ => .error (.unmodelled "a name that is not a text"))
 
 /-- `self.c.executemany(text, rows)` -/
 def executemany (db : Db) (text : Py.Str) (rows : List (List Val)) : Db × Except Err Unit := MicroSql.executemany db text rows
